@@ -386,6 +386,7 @@ _NEUTRAL_BASES = {
     "neutral-r12": ["C15", "C16", "C17"],
     "neutral-r13": ["C05", "C14", "C20"],
     "neutral-r14": ["C03", "C08", "C11", "C14", "C15"],
+    "neutral-r16": ["C05", "C06", "C08", "C15", "C16", "C18", "C19", "C20"],
 }
 for _b, _ps in _NEUTRAL_BASES.items():
     for _p, _m in refactor(_b, _ps).items():
@@ -431,6 +432,16 @@ _CROSS = {
     "C17": [on("neutral-r8", mut("r8+sign-swapped", "sign string swapped",
                                  [(FORMAT, 'let sign = if rounded.is_sign_negative() { "-" } else { "" };', 'let sign = if rounded.is_sign_negative() { "" } else { "-" };')], ["R4:"]))],
 }
+_CROSS3 = {
+    "C15": [on("neutral-r16", mut("r16+value-default-guard-negated", "overwrite guard tests the explicit path",
+                                  [(MAIN, "if is_default && output_path.exists()", "if !is_default && output_path.exists()")], ["R4:"]))],
+    "C18": [on("neutral-r16", mut("r16+recorder-drops-emits", "recorder pushes an emitted row only when it is not a sell",
+                                  [(SCHWAB, "            RowOutcome::Emit(txn) => self.emitted.push(txn),",
+                                    "            RowOutcome::Emit(txn) => {\n                if !matches!(txn, CgtTransaction::Sell { .. }) {\n                    self.emitted.push(txn);\n                }\n            }")], ["R2:Sell:one-row"])),
+            on("neutral-r16", mut("r16+sell-price-from-quantity", "sell handler copies the quantity into the price",
+                                  [(SCHWAB, "    RowOutcome::Emit(CgtTransaction::Sell {\n        date: common.date,\n        symbol: common.symbol,\n        quantity,\n        price,",
+                                    "    RowOutcome::Emit(CgtTransaction::Sell {\n        date: common.date,\n        symbol: common.symbol,\n        quantity,\n        price: quantity,")], ["R2:Sell:price"]))],
+}
 _CROSS2 = {
     "C05": [on("neutral-r9", mut("r9+holding-strict", "holding helper refuses an exactly covered sale",
                                  [(M, "        if sell_amount <= total_held {", "        if sell_amount < total_held {")], ["R1:guard:shape"]))],
@@ -453,5 +464,5 @@ _CROSS2 = {
     "C11": [on("neutral-r14", mut("r14+closure-no-apportion", "closure adds the whole adjustment to every lot",
                                   [(LED, "                    lot.cost_offset += adjustment * (held / total_held);", "                    lot.cost_offset += adjustment;")], ["R4:"]))],
 }
-for _p, _ms in list(_CROSS.items()) + list(_CROSS2.items()):
+for _p, _ms in list(_CROSS.items()) + list(_CROSS2.items()) + list(_CROSS3.items()):
     MUTANTS.setdefault(_p, []).extend(_ms)
